@@ -200,6 +200,10 @@ func (g *Gen) typesOfKind(kinds ...Kind) []TypeInfo {
 }
 
 func (g *Gen) randString() string {
+	if g.Rng.IntN(12) == 0 {
+		// strings that spell a literal of another kind, a reference, a container
+		return pick(g.Rng, []string{"null", "true", "false", "12", "-1.5", "1e5", "{}", "[]", "@t0", "undefined", "NaN"})
+	}
 	if g.AllowExotic && g.Rng.IntN(4) == 0 {
 		return pick(g.Rng, []string{"a\"b", "a\\b", "tab\there", "line\nbreak", "é", "€uro", "😀", "/", "//x", "a#b", "@a", "{", ":", "*/", "/*", " lead", "trail ", "<&>"})
 	}
